@@ -47,6 +47,13 @@ def run(ctx):
         if res.get("cases") != r.emitted:
             raise_incon(ctx, "%s: harness replayed %s of %d cases" % (cfg, res.get("cases"), r.emitted))
         ctx.absorb(res, cfg)
+        if mode == "instance" and cfg in ("MC_quick_inst", "MC_thorough_inst"):
+            # atomicity of the range computation w.r.t. ring updates: concurrent readers while the ring flips
+            # between two enumerated rings; every answer must be the specification's ownership of one of them
+            res = ctx.run_harness("c14", "^TestConcurrent$", env={"VERIF_IN": r.out_path, "VERIF_NK": nk, "VERIF_GAPS": json.dumps(gaps),
+                                                                "VERIF_PAIRS": 40 if ctx.tier == "quick" else 400,
+                                                                "VERIF_FLIPS": 300 if ctx.tier == "quick" else 1000}, timeout=900)
+            ctx.absorb(res, cfg + "/concurrent")
     # code -> spec: random rings recorded from the real code, validated line by line by TLC
     n = 120 if ctx.tier == "quick" else 1500
     trace = ctx.path("c14_trace.ndjson")
